@@ -14,6 +14,7 @@ import os
 import subprocess
 
 from common import *
+from irlib import tyname
 from absval import State, PtrVal, IntVal, CondVal
 from lin import Lin
 from contracts import Env, assume_text, entails_text
@@ -94,7 +95,7 @@ class Anchors:
     def nm(self, f):
         n = f.qualname
         if f.srcname == 'plan':
-            n += sig_suffix(f)
+            n += '(tim)' if len(f.params) == 2 else '(tim,start,interval)'
         if f is self.lam:
             n = self.plan.qualname + '::<search predicate>'
         return n
@@ -241,7 +242,7 @@ def lock_rules(rep, A):
         for base, depth in want.items():
             cs = calls_of(mod, f, base)
             if not cs:
-                raise AnalysisBroken('%s no longer calls %s (anchor of R-GUARDED vanished)' % (A.nm(f), base))
+                continue      # nothing to guard (the floors catch a rule that matches nothing)
             bad = [c for c in cs if at.get(c.id, set()) != {depth}]
             what = 'callback' if base == '<indirect>' else base
             rep.inst('R-GUARDED', A.nm(f), '%s-at-lock-depth-%d' % (what, depth), not bad,
@@ -364,78 +365,101 @@ def cond_branch(f, call):
 
 
 def rearm_rule(rep, A):
+    """order of events inside exec.  The calls are the subject of the rule: a missing or duplicated call makes the
+    clauses that need it fail (it is not treated as a vanished anchor)."""
     mod, f = A.mod, A.exec_
     name = A.nm(f)
     where = '%s:%d' % (f.file, f.line)
-
-    def one(base, what=None):
-        cs = calls_of(mod, f, base)
-        if len(cs) != 1:
-            raise AnalysisBroken('%s: expected exactly one call of %s, found %d (anchor of R-REARM changed)'
-                                 % (name, what or base, len(cs)))
-        return cs[0]
-    first, check, cb = one('first'), one('check'), one('<indirect>', 'the timer callback (virtual execute)')
-    planned, unplan, shift, plan = one('is_planned'), one('unplan'), one('shift'), one('plan')
-    empty = one('empty')
-    tim = first
     R = 'R-REARM'
+    NAMES = {'<indirect>': 'the timer callback (virtual execute())'}
+    got = {}
+    for base in ('first', 'empty', 'check', '<indirect>', 'is_planned', 'unplan', 'shift', 'plan'):
+        cs = calls_of(mod, f, base)
+        got[base] = cs[0] if len(cs) == 1 else None
+        got[base + '#'] = len(cs)
+    first, empty, check, cb = got['first'], got['empty'], got['check'], got['<indirect>']
+    planned, unplan, shift, plan = got['is_planned'], got['unplan'], got['shift'], got['plan']
+
+    def clause(key, needs, cond, detail):
+        missing = [b for b in needs if got[b] is None]
+        if missing:
+            b = missing[0]
+            rep.inst(R, name, key, False, where, 'exec contains %d call(s) of %s, exactly one is expected: %s'
+                     % (got[b + '#'], NAMES.get(b, b + '()'), detail))
+            return
+        ok = bool(cond())
+        rep.inst(R, name, key, ok, got[needs[0]].where() if needs else where, None if ok else detail)
 
     def same_timer(c, idx=0):
-        return c.ops[idx].k == 'inst' and c.ops[idx].id == tim.id
-    # the callback is the virtual execute() of the head timer: function pointer loaded from its vtable
-    cv = cb.callee_v
-    vt_ok = False
-    if cv.k == 'inst' and f.insts[cv.id].op == 'load':
-        slot = f.insts[cv.id].ops[0]
-        r, o = trace_const(f, slot)
-        if r.k == 'inst' and f.insts[r.id].op == 'load':
-            r2, o2 = trace_const(f, f.insts[r.id].ops[0])
-            vt_ok = r2.k == 'inst' and r2.id == tim.id and o2 == 0
-    ok = all(same_timer(c) for c in (check, cb, planned, unplan, shift)) and same_timer(plan, 1) and vt_ok
-    rep.inst(R, name, 'check/execute/is_planned/unplan/shift/plan-act-on-the-head-timer', ok, check.where(),
-             None if ok else 'the calls inside the exec loop do not all operate on the timer returned by '
-             'timer_list.first() of this iteration')
-    r, o = trace_const(f, first.ops[0])
-    ok = r.k == 'arg' and r.argno == 0 and o == A.off_list and any(first.block in L['blocks'] for L in f.loops)
-    rep.inst(R, name, 'head-is-reread-from-timer_list-every-iteration', ok, first.where(),
-             None if ok else 'first() is not taken from this->timer_list inside the loop')
-    eb = cond_branch(f, empty)
-    ok = eb is not None and eb[2] is not eb[1] and f.dominates_block(eb[2], first.block) \
-        and not f.dominates_block(eb[1], first.block)
-    rep.inst(R, name, 'first()-only-when-not-empty', ok, first.where(),
-             None if ok else 'timer_list.first() is reachable without a preceding negative empty() test')
-    ok = check.ops[1].k == 'arg' and check.ops[1].argno == 1
-    rep.inst(R, name, 'due-test-uses-the-curtime-argument', ok, check.where(),
-             None if ok else 'check() is not called with the curtime parameter of exec')
-    cbr = cond_branch(f, check)
-    ok = cbr is not None and cbr[1] is not cbr[2] and f.dominates_block(cbr[1], cb.block) \
-        and not f.dominates_block(cbr[2], cb.block) and f.dominates(check, cb)
-    rep.inst(R, name, 'callback-only-after-check-returned-true', ok, cb.where(),
-             None if ok else 'the callback is reachable on a path on which check(curtime) did not just return true')
-    loop = [L for L in f.loops if check.block in L['blocks']]
-    ok = cbr is not None and bool(loop) and all(cbr[2] not in L['blocks'] for L in loop)
-    if ok:
-        # ... and leaves exec without running anything else
+        return c.ops[idx].k == 'inst' and c.ops[idx].id == first.id
+
+    def vtable_of_head():
+        # the callback is the virtual execute() of the head timer: function pointer loaded from its vtable
+        cv = cb.callee_v
+        if cv.k == 'inst' and f.insts[cv.id].op == 'load':
+            r, o = trace_const(f, f.insts[cv.id].ops[0])
+            if r.k == 'inst' and f.insts[r.id].op == 'load':
+                r2, o2 = trace_const(f, f.insts[r.id].ops[0])
+                return r2.k == 'inst' and r2.id == first.id and o2 == 0
+        return False
+    clause('check/execute/is_planned/unplan/shift/plan-act-on-the-head-timer',
+           ['check', 'first', '<indirect>', 'is_planned', 'unplan', 'shift', 'plan'],
+           lambda: all(same_timer(c) for c in (check, cb, planned, unplan, shift)) and same_timer(plan, 1)
+           and vtable_of_head(),
+           'the calls inside the exec loop must all operate on the timer returned by timer_list.first() of this iteration')
+
+    def reread():
+        r, o = trace_const(f, first.ops[0])
+        return r.k == 'arg' and r.argno == 0 and o == A.off_list and any(first.block in L['blocks'] for L in f.loops)
+    clause('head-is-reread-from-timer_list-every-iteration', ['first'], reread,
+           'first() must be taken from this->timer_list inside the loop')
+
+    def nonempty():
+        eb = cond_branch(f, empty)
+        return eb is not None and eb[2] is not eb[1] and f.dominates_block(eb[2], first.block) \
+            and not f.dominates_block(eb[1], first.block)
+    clause('first()-only-when-not-empty', ['first', 'empty'], nonempty,
+           'timer_list.first() must be reachable only after a negative empty() test')
+    clause('due-test-uses-the-curtime-argument', ['check'],
+           lambda: check.ops[1].k == 'arg' and check.ops[1].argno == 1,
+           'check() must be called with the curtime parameter of exec')
+
+    def guarded():
+        cbr = cond_branch(f, check)
+        return cbr is not None and cbr[1] is not cbr[2] and f.dominates_block(cbr[1], cb.block) \
+            and not f.dominates_block(cbr[2], cb.block) and f.dominates(check, cb)
+    clause('callback-only-after-check-returned-true', ['<indirect>', 'check'], guarded,
+           'the callback must be reachable only on the path on which check(curtime) just returned true')
+
+    def notdue_ends():
+        cbr = cond_branch(f, check)
+        loop = [L for L in f.loops if check.block in L['blocks']]
+        if cbr is None or not loop or any(cbr[2] in L['blocks'] for L in loop):
+            return False
         reach = f.reachable_blocks(cbr[2])
-        ok = not any(i.op in ('call', 'invoke') and not is_intrinsic(i) and i.callee not in LOCKS + UNLOCKS
-                     for b in reach for i in b.insts)
-    rep.inst(R, name, 'head-not-due-ends-exec', ok, check.where(),
-             None if ok else 'when the head timer is not due, exec must stop (the list is sorted: nothing else is due); '
-             'the false edge of check() stays in the loop or runs further code')
-    ok = f.dominates(cb, planned)
-    pbr = cond_branch(f, planned)
-    ok = ok and pbr is not None and pbr[1] is not pbr[2]
-    rep.inst(R, name, 'is_planned-sampled-after-the-callback', ok, planned.where(),
-             None if ok else 'is_planned() must be evaluated after execute() returned')
-    ok = pbr is not None and all(f.dominates_block(pbr[1], c.block) and not f.dominates_block(pbr[2], c.block)
-                                 for c in (unplan, shift, plan))
-    rep.inst(R, name, 're-arm-only-if-still-planned', ok, shift.where(),
-             None if ok else 'unplan/shift/plan must run only on the branch on which the callback left the timer planned '
-             '(a timer unplanned by its callback must not come back)')
-    ok = f.dominates(unplan, shift) and f.dominates(shift, plan)
-    rep.inst(R, name, 're-arm-order-unplan-shift-plan', ok, shift.where(),
-             None if ok else 'the re-arm sequence must be unplan(); shift(); plan(): the deadline is advanced while the '
-             'timer is out of the sorted list and the timer is re-inserted with the new deadline')
+        return not any(i.op in ('call', 'invoke') and not is_intrinsic(i) and i.callee not in LOCKS + UNLOCKS
+                       for b in reach for i in b.insts)
+    clause('head-not-due-ends-exec', ['check'], notdue_ends,
+           'when the head timer is not due, exec must stop (the list is sorted: nothing else is due); '
+           'the false edge of check() must leave the loop without running further code')
+
+    def sampled():
+        pbr = cond_branch(f, planned)
+        return f.dominates(cb, planned) and pbr is not None and pbr[1] is not pbr[2]
+    clause('is_planned-sampled-after-the-callback', ['is_planned', '<indirect>'], sampled,
+           'is_planned() must be evaluated after execute() returned and decide the re-arm')
+
+    def only_if_planned():
+        pbr = cond_branch(f, planned)
+        return pbr is not None and all(f.dominates_block(pbr[1], c.block) and not f.dominates_block(pbr[2], c.block)
+                                       for c in (unplan, shift, plan))
+    clause('re-arm-only-if-still-planned', ['shift', 'is_planned', 'unplan', 'plan'], only_if_planned,
+           'unplan/shift/plan must run only on the branch on which the callback left the timer planned '
+           '(a timer unplanned by its callback must not come back)')
+    clause('re-arm-order-unplan-shift-plan', ['shift', 'unplan', 'plan'],
+           lambda: f.dominates(unplan, shift) and f.dominates(shift, plan),
+           'the re-arm sequence must be unplan(); shift(); plan(): the deadline is advanced by exactly one interval while '
+           'the timer is out of the sorted list, then the timer is re-inserted with the new deadline')
     others = [i for i in f.calls() if callee_base(mod, i) in ('set_start', 'set_interval')]
     stores = [i for i in f.all_insts() if i.op == 'store']
     ok = not others and not stores
@@ -792,7 +816,59 @@ def make_hook(W_, callbacks, check_due=True, guard_links=False):
     return hook, store_hook
 
 
+class PeelInterp(Interp):
+    """Interp whose bounded peeling (concrete execution of a loop whose trip count is decided by the state) accepts more
+    iterations and more simultaneous paths than the engine default (MAX_PEEL = 3, 4 latch states): an exec over an
+    explicit list of k timers with n due periods needs n+1 header visits and forks once per pair of re-armed deadlines.
+    Same algorithm as absint.Interp.try_peel, only the two limits differ."""
+    max_peel = 3
+    max_latches = 4
+
+    def try_peel(self, fn, L, st, frm, rets):
+        header = L['header']
+        cur = [(st.fork(), frm)]
+        all_exits, all_rets = [], []
+        self.recording += 1
+        ok = False
+        try:
+            for k in range(self.max_peel + 1):
+                nxt = []
+                for (s, f) in cur:
+                    self.eval_phis(fn, header, s, f)
+                    latches, exits = self.run_region(fn, L, [(s, f)], all_rets)
+                    nxt.extend(latches)
+                    all_exits.extend(exits)
+                if not nxt:
+                    ok = True
+                    break
+                if len(nxt) > self.max_latches:
+                    break
+                cur = nxt
+        except AnalysisBroken:
+            ok = False
+        finally:
+            self.recording -= 1
+        if not ok:
+            return None
+        cur = [(st, frm)]
+        out = []
+        for k in range(self.max_peel + 1):
+            nxt = []
+            for (s, f) in cur:
+                self.eval_phis(fn, header, s, f)
+                latches, exits = self.run_region(fn, L, [(s, f)], rets)
+                nxt.extend(latches)
+                out.extend(exits)
+            if not nxt:
+                break
+            cur = nxt
+        return out
+
+
 class Scenarios:
+    max_peel = 3
+    max_latches = 4
+
     def __init__(self, rep, A):
         self.rep, self.A = rep, A
         self.n = 0
@@ -808,7 +884,8 @@ class Scenarios:
         return out
 
     def run(self, rule, f, key, lists, loose=(), pre=(), args=(), fired=None, rings=None, sets=None, selfl=(),
-            post=(), ret=None, callbacks=None, guard_links=False, check_due=True, sorted_after=True, scalars=()):
+            post=(), ret=None, callbacks=None, guard_links=False, check_due=True, sorted_after=True, scalars=(),
+            counts=None):
         A, rep = self.A, self.rep
         self.n += 1
         Wd = World(A, lists, loose, scalars)
@@ -822,7 +899,8 @@ class Scenarios:
         if len(states) != 1 or states[0].cons.unsat():
             raise AnalysisBroken('scenario %s of %s has unsatisfiable or disjunctive premises' % (key, A.nm(f)))
         st = states[0]
-        it = Interp(A.mod)
+        it = PeelInterp(A.mod)
+        it.max_peel, it.max_latches = self.max_peel, self.max_latches
         it.call_hook, it.store_hook = make_hook(Wd, callbacks, check_due, guard_links)
         argv = []
         for a in args:
@@ -832,7 +910,17 @@ class Scenarios:
                 argv.append(Wd.scalars[a[1]])
             else:
                 argv.append(Wd.ptr(a))
-        rets = it.run_function(f, st, argv)
+        try:
+            rets = it.run_function(f, st, argv)
+        except AnalysisBroken as ex:
+            if 'loop invariant inference did not converge' in str(ex):
+                # the reference scheduler terminates within the peeling bound in every scenario; a loop that the
+                # interpreter cannot unroll to its end under the scenario premises no longer does
+                rep.inst(rule, A.nm(f), key, False, '%s:%d' % (f.file, f.line),
+                         'scenario %s: the call does not terminate within the %d loop iterations the reference scheduler '
+                         'needs (%s)' % (key, self.max_peel, ex))
+                return
+            raise AnalysisBroken('scenario %s of %s: %s' % (key, A.nm(f), ex))
         name = A.nm(f)
         where = '%s:%d' % (f.file, f.line)
         fullkey = '%s' % key
@@ -852,6 +940,21 @@ class Scenarios:
             if fired is not None and list(T.ghost.get('fired', ())) != list(fired):
                 problems.append('callbacks ran in the order %s, the reference scheduler runs %s'
                                 % (list(T.ghost.get('fired', ())), list(fired)))
+            if counts is not None:
+                # reference scheduler on this path: every timer fires once per elapsed period, and the callbacks of
+                # one exec run in non-decreasing deadline order (deadline of the j-th run of t = start + j*interval)
+                F = list(T.ghost.get('fired', ()))
+                for t, k in counts.items():
+                    if F.count(t) != k:
+                        problems.append('timer %s ran %d time(s) in this exec, %d period(s) have elapsed' % (t, F.count(t), k))
+                seen, prev = {}, None
+                for t in F:
+                    seen[t] = seen.get(t, 0) + 1
+                    d = Wd.env.names[t + '.start'] + Wd.env.names[t + '.interval'] * seen[t]
+                    if prev is not None and not T.cons.entails_le(prev[1], d):
+                        problems.append('callback of %s (run %d) ran after %s although its deadline is not provably later '
+                                        'or equal: callbacks out of deadline order %s' % (t, seen[t], prev[0], F))
+                    prev = (t, d)
             e = Wd.post_env(T)
             for m in Wd.mgrs:
                 got = Wd.ring(T, m)
@@ -917,7 +1020,7 @@ def plan_scenarios(rep, A, maxn):
                   ['h', 'x'], rings={'h': oth[:k] + ['x'] + oth[k:]}, guard_links=True, sorted_after=False,
                   post=['x.start_post == x.start', 'x.interval_post == x.interval'])
     # x already planned in the same list at position j (re-plan)
-    for n in range(0, min(maxn, 3)):
+    for n in range(0, maxn):
         oth = names[:n]
         for j in range(n + 1):
             before = oth[:j] + ['x'] + oth[j:]
@@ -1015,13 +1118,44 @@ def exec_scenarios(rep, A, tier):
         rings={'h': ['a']}, selfl=['b'], post=['b.start_post == b.start'], callbacks={'b': 'unplan-self'})
     # three timers due once each: deadline order
     three = S.nowrap(['a', 'b', 'c'], 3) + ['%s <= %s' % (fin('a'), fin('b')), '%s <= %s' % (fin('b'), fin('c'))]
+    nxt = lambda t: '%s.start + 2 * %s.interval' % (t, t)
     run('three-timers:all-due-once-fire-in-deadline-order', ['a', 'b', 'c'],
-        three + due('a', 1) + due('b', 1) + due('c', 1), fired=['a', 'b', 'c'], sets={'h': ['a', 'b', 'c']},
+        three + due('a', 1) + due('b', 1) + due('c', 1) + ['%s <= %s' % (nxt('a'), nxt('b')), '%s <= %s' % (nxt('b'), nxt('c'))],
+        fired=['a', 'b', 'c'], rings={'h': ['a', 'b', 'c']},
         post=['a.start_post == a.start + a.interval', 'b.start_post == b.start + b.interval',
               'c.start_post == c.start + c.interval'])
+    run('three-timers:all-due-once:re-armed-in-reverse-order', ['a', 'b', 'c'],
+        three + due('a', 1) + due('b', 1) + due('c', 1) + ['%s < %s' % (nxt('b'), nxt('a')), '%s < %s' % (nxt('c'), nxt('b'))],
+        fired=['a', 'b', 'c'], rings={'h': ['c', 'b', 'a']})
     run('three-timers:only-the-first-two-due', ['a', 'b', 'c'],
-        three + due('a', 1) + due('b', 1) + due('c', 0), fired=['a', 'b'], sets={'h': ['a', 'b', 'c']},
-        post=['c.start_post == c.start'])
+        three + due('a', 1) + due('b', 1) + due('c', 0) + ['%s >= %s' % (nxt('a'), fin('c')), '%s >= %s' % (nxt('b'), nxt('a'))],
+        fired=['a', 'b'], rings={'h': ['c', 'a', 'b']}, post=['c.start_post == c.start'])
+    # unpinned families: only the number of elapsed periods per timer is fixed; the interpreter enumerates every relative
+    # order of the deadlines and each path is compared with the reference (count per timer, deadline order, re-armed
+    # deadline, sorted list)
+    budget = 5 if tier == 'thorough' else 3
+    for ka in range(0, budget + 1):
+        for kb in range(0, budget + 1 - ka):
+            if ka == 0:
+                continue      # the list is sorted: if the head is not due nothing is
+            run('two-timers:a-elapsed-%d,b-elapsed-%d:any-order' % (ka, kb), ['a', 'b'],
+                S.nowrap(['a', 'b'], max(ka, kb) + 1) + ['%s <= %s' % (fin('a'), fin('b'))] + due('a', ka) + due('b', kb),
+                counts={'a': ka, 'b': kb}, sets={'h': ['a', 'b']},
+                post=['a.start_post == a.start + %d * a.interval' % ka, 'b.start_post == b.start + %d * b.interval' % kb])
+    triples = [(1, 1, 1), (1, 1, 0), (2, 1, 1)]
+    if tier == 'thorough':
+        triples += [(1, 2, 1), (1, 1, 2), (2, 2, 1), (3, 1, 1), (2, 1, 0)]
+    if True:
+        for (ka, kb, kc) in triples:
+            run('three-timers:elapsed-%d-%d-%d:any-order' % (ka, kb, kc), ['a', 'b', 'c'],
+                S.nowrap(['a', 'b', 'c'], max(ka, kb, kc) + 1) + ['%s <= %s' % (fin('a'), fin('b')), '%s <= %s' % (fin('b'), fin('c'))]
+                + due('a', ka) + due('b', kb) + due('c', kc), counts={'a': ka, 'b': kb, 'c': kc}, sets={'h': ['a', 'b', 'c']},
+                post=['a.start_post == a.start + %d * a.interval' % ka, 'b.start_post == b.start + %d * b.interval' % kb,
+                      'c.start_post == c.start + %d * c.interval' % kc])
+    if tier == 'thorough':
+        for k in (4, 5):
+            run('one-timer:%d-period(s)-elapsed' % k, ['a'], S.nowrap(['a'], k + 1) + due('a', k), fired=['a'] * k,
+                rings={'h': ['a']}, post=['a.start_post == a.start + %d * a.interval' % k])
     if not A.signed:
         M = 1 << A.W
         # the tick counter has wrapped since the timer was started: elapsed time is computed modulo 2^W
@@ -1029,10 +1163,11 @@ def exec_scenarios(rep, A, tier):
         run('one-timer:clock-wrapped:due', ['a'], wrapped + ['now + %d - a.start >= a.interval' % M,
                                                              'now + %d - a.start < 2 * a.interval' % M],
             fired=['a'], rings={'h': ['a']}, post=['a.start_post == a.start + a.interval'])
-        run('one-timer:clock-wrapped:not-due', ['a'], wrapped + ['now + %d - a.start < a.interval' % M],
+        run('one-timer:deadline-beyond-wrap:not-due-after-the-clock-wrapped', ['a'],
+            ['a.interval >= 1', 'now < a.start', 'now + %d - a.start < a.interval' % M],
             fired=[], rings={'h': ['a']}, post=['a.start_post == a.start'])
         # a deadline beyond the wrap point (start + interval overflows) is still not due before interval ticks passed
-        run('one-timer:deadline-beyond-wrap:not-due', ['a'], ['a.interval >= 1', 'now >= a.start', 'now - a.start < a.interval',
+        run('one-timer:deadline-beyond-wrap:not-due-before-the-clock-wraps', ['a'], ['a.interval >= 1', 'now >= a.start', 'now - a.start < a.interval',
                                                              'a.start + a.interval >= %d' % M],
             fired=[], rings={'h': ['a']}, post=['a.start_post == a.start'])
         run('one-timer:deadline-beyond-wrap:due-after-the-clock-wrapped', ['a'],
@@ -1169,34 +1304,29 @@ def run(rep, repo, tier):
                      'igris/sync/syslock.h, igris/util/memberxx.h')
     rep.units.append('witness/w_c16_private.cpp (-fsyntax-only) -> igris/time/timer_manager.h')
     member_offset_shape(mod)
-    import absint
-    saved = absint.MAX_PEEL
     nscen = 0
-    try:
-        if tier == 'thorough':
-            absint.MAX_PEEL = 5       # explicit lists of up to 5 timers (local to this process)
-        for (tag, targs, W, signed) in INSTANCES:
-            A = Anchors(mod, tag, targs, W, signed)
-            lock_rules(rep, A)
-            who_links(rep, A)
-            rearm_rule(rep, A)
-            dueform_rule(rep, A.nm(A.check), A.check, 1, A.off_start, A.off_interval, signed, mod)
-            sortkey_rule(rep, A)
-            accessor_contracts(rep, A)
-            nscen += plan_scenarios(rep, A, 5 if tier == 'thorough' else 3)
-            nscen += exec_scenarios(rep, A, tier)
-            nscen += head_scenarios(rep, A)
-    finally:
-        absint.MAX_PEEL = saved
+    Scenarios.max_peel, Scenarios.max_latches = 6, 48
+    for (tag, targs, W, signed) in INSTANCES:
+        A = Anchors(mod, tag, targs, W, signed)
+        lock_rules(rep, A)
+        who_links(rep, A)
+        rearm_rule(rep, A)
+        dueform_rule(rep, A.nm(A.check), A.check, 1, A.off_start, A.off_interval, signed, mod)
+        sortkey_rule(rep, A)
+        accessor_contracts(rep, A)
+        nscen += plan_scenarios(rep, A, 5 if tier == 'thorough' else 3)
+        nscen += exec_scenarios(rep, A, tier)
+        nscen += head_scenarios(rep, A)
     private_witness(rep, repo)
     stimer_rules(rep, repo)
     rep.extra['scenarios'] = {'explicit_list_configurations': nscen}
-    rep.floor('R-LOCKBAL', 18)
-    rep.floor('R-GUARDED', 16)
+    # floors: non-vacuity thresholds (about two thirds of what today's sources yield)
+    rep.floor('R-LOCKBAL', 12)
+    rep.floor('R-GUARDED', 8)
     rep.floor('R-WHOLINKS', 60)
-    rep.floor('R-REARM', 22)
-    rep.floor('R-DUEFORM', 15)
-    rep.floor('R-SORTKEY', 10)
+    rep.floor('R-REARM', 20)
+    rep.floor('R-DUEFORM', 12)
+    rep.floor('R-SORTKEY', 8)
     rep.floor('R-CLOSEDFORM:post', 30)
     rep.floor('R-PLAN', 50)
     rep.floor('R-EXEC', 40)
